@@ -16,8 +16,10 @@ def pool():
     big = [0, 1, -1, 2, 7, 8, 2 ** 13, 2 ** 18, 2 ** 31 - 1, 2 ** 31, -2 ** 31, -2 ** 31 - 1, 2 ** 63 - 1, 2 ** 63, -2 ** 63 - 1,
            2 ** 64, 10 ** 100, os.getpid(), "", "lo", "eth0", "x" * 15, "x" * 16, "x" * 17, "x" * 300, "a\0b", "\udcff", "é" * 20,
            b"", b"lo", b"\xff" * 40, None, 1.5, float("nan"), True, [], [0], [0, 0, 1], [-1], [2 ** 70], ["a"], [None],
-           list(range(2048)), [1023], [1024], [10 ** 6], (), (0,), {}, {1}, object(), "/proc/mounts", "/nonexistent", "/"]
-    small = [0, -1, 2 ** 31 - 1, 2 ** 31, 2 ** 64, os.getpid(), "lo", "x" * 300, None, [0], [2 ** 70], 1.5]
+           list(range(2048)), [1023], [1024], [10 ** 6], (), (0,), {}, {1}, object(), "/proc/mounts", "/nonexistent", "/",
+           # names around the sizes of typical message / path buffers (an error path may format the name it was given)
+           "n" * 900, "n" * 1000, "n" * 1023, "n" * 1024, "n" * 1100, "n" * 4096, "n" * 70000]
+    small = [0, -1, 2 ** 31 - 1, 2 ** 31, 2 ** 64, os.getpid(), "lo", "x" * 300, "n" * 1100, None, [0], [2 ** 70], 1.5]
     tiny = [0, -1, 2 ** 31, 7, 2 ** 20, "x", None]
     return big, small, tiny
 
